@@ -9,6 +9,10 @@ package ollamarunner
 //@ axiom forall s string :: len(s) == 0 ==> svalidutf8(s)
 //@ axiom forall s string :: shasprefix(s, s)
 //@ axiom forall s string, t string, n int :: shasprefix(s, t) && 0 <= n && n <= len(t) ==> shasprefix(s, t[0:n])
+// (C14 audit) two more facts about strings (trusted, listed in props/C14.json): a string is its own full-length
+// substring; a prefix of a prefix is a prefix.
+//@ axiom forall s string :: s[0:len(s)] == s
+//@ axiom forall s string, a int, b int :: 0 <= b && b <= a && a <= len(s) ==> s[0:a][0:b] == s[0:b]
 
 //@ func flushPending
 //@   modifies seq.pendingResponses
@@ -16,6 +20,14 @@ package ollamarunner
 //@   loop 1 decreases len(joined)
 //@   assert-at send responses #1 : svalidutf8(sent) && len(sent) > 0 && shasprefix(old(sjoin(seq.pendingResponses, "")), sent)
 //@   ensures len(seq.pendingResponses) == 0
+// -- added by the C14 audit: "drop invalid tail on final flush" drops ONLY the invalid tail - what is
+// sent is the LONGEST valid prefix of the withheld text (no longer prefix of it is valid UTF-8), and
+// when nothing is sent no non-empty prefix was valid. Otherwise generated text would be lost and the
+// streamed text would not "end at the end-of-sequence token or the prediction limit".
+//@   loop 1 invariant joined == old(sjoin(seq.pendingResponses, ""))[0:len(joined)] && len(joined) <= len(old(sjoin(seq.pendingResponses, "")))
+//@   loop 1 invariant forall n int :: len(joined) < n && n <= len(old(sjoin(seq.pendingResponses, ""))) ==> !svalidutf8(old(sjoin(seq.pendingResponses, ""))[0:n])
+//@   assert-at send responses #1 : forall n int :: len(sent) < n && n <= len(old(sjoin(seq.pendingResponses, ""))) ==> !svalidutf8(old(sjoin(seq.pendingResponses, ""))[0:n])
+//@   assert-at return #1 : forall n int :: 0 < n && n <= len(old(sjoin(seq.pendingResponses, ""))) ==> !svalidutf8(old(sjoin(seq.pendingResponses, ""))[0:n])
 
 // ---- processBatch: the per-token stop / withhold / flush decision -------------------------------
 // Only this decision is under contract (order-of-effects with recorded results); the model,
@@ -52,6 +64,45 @@ package ollamarunner
 //@   assert-at call append #5 : arg1[0] == len(seq.cache.Inputs) + len(seq.pendingInputs)
 //@   assert-at call append #6 : arg1[0] == seq.cache.Id
 //@   assert-at call append #9 : arg0 == seq.cache.Inputs && arg1 == seq.pendingInputs
+// -- added by the C14/C07 audit --
+// C14 "it ends at the end-of-sequence token": once the sampled token is end-of-sequence nothing more is
+// decoded or appended to the text for this sequence; the sequence that is removed is the one being
+// looked at (index of the loop at hand, not a stale one); the withheld list grows by exactly the
+// decoded piece.
+//@   ghost-at after call Is #1 : ghost_eos := ite(result, 1, 0)
+//@   assert-at call Decode #1 : ghost_eos == 0
+//@   assert-at call append #10 : ghost_eos == 0 && arg0 == seq.pendingResponses && len(arg1) == 1 && arg1[0] == piece
+//@   assert-at call removeSequence #1 : arg1 == seqIdx
+//@   assert-at call removeSequence #3 : arg1 == i && ghost_eos == 1
+//@   assert-at call removeSequence #4 : arg1 == i
+//@   assert-at call removeSequence #5 : arg1 == i
+// C14 "or the prediction limit": a sequence that has reached its limit gets nothing queued in this pass.
+//@   assert-at call append #3 : !(seq.numPredict > 0 && seq.numPredicted >= seq.numPredict)
+// C07 "cache record trimmed when a stop sequence removes generated tokens": with o/n = number of withheld
+// pieces before/after TruncateStop and t = 1 if the last kept piece was cut, the new record is a prefix of
+// the old one that (1) never contains the token sampled in this pass (it was not given to the model:
+// the cache holds len(Inputs) entries, so a longer record would break "cache == record"), and (2) has
+// dropped every token whose piece was removed or cut: at most len(Inputs) + 1 - (o - n) - t entries.
+//@   ghost-at call TruncateStop #1 : ghost_olen := len(arg0)
+//@   ghost-at after call TruncateStop #1 : ghost_nlen := len(result.0)
+//@   ghost-at after call TruncateStop #1 : ghost_trunc := ite(result.1, 1, 0)
+//@   assert-at store Inputs #5 : len(stored) <= len(seq.cache.Inputs) && len(stored) <= len(seq.cache.Inputs) + 1 - (ghost_olen - ghost_nlen) - ghost_trunc
+//@   assert-at store Inputs #5 : stored == seq.cache.Inputs[0:len(stored)]      -- #5: the selector matches field names by suffix, stores to pendingInputs count too
+// C07 "what the model is given": the token queued for the model is the token of the input that is
+// recorded as pending (and so, after Forward, in the slot's record at the position handed to the cache);
+// tokens, positions and sequence ids stay aligned (one of each per input); the logits row a sequence
+// samples from (iBatch-th output) is the row of its own last input; a context shift happens only while
+// nothing of the sequence is queued (queued positions were computed before the shift) and for the
+// sequence's own slot and keep count; after a failed shift the inputs handed back are put in front of
+// the remaining queue; at the end of the pass the queue loses exactly the inputs that were queued; the
+// sampled token is the next input.
+//@   ghost-at call append #3 : ghost_tok := arg1[0]
+//@   assert-at call append #8 : arg0 == seq.pendingInputs && len(arg1) == 1 && arg1[0].Token == ghost_tok
+//@   assert-at call append #7 : arg0 == batch.Outputs && seq.iBatch == len(batch.Outputs) && arg1[0] == wrapint32(len(batchInputs) - 1)
+//@   assert-at call ShiftCacheSlot #1 : len(seq.pendingInputs) == 0 && arg0 == s.cache && arg1 == seq.cache && arg2 == seq.numKeep
+//@   assert-at call append #2 : arg1 == seq.inputs && len(seq.pendingInputs) == 0
+//@   assert-at store inputs #3 : stored == seq.inputs[len(seq.pendingInputs):]
+//@   assert-at store inputs #4 : len(stored) == 1 && stored[0].Token == token
 
 // removeSequence: the final flush and the reason are in place before the stream is closed.
 //@ func (*Server).removeSequence
@@ -59,3 +110,9 @@ package ollamarunner
 //@   ghost-at entry : ghost_flushed := 0
 //@   ghost-at after call flushPending #1 : ghost_flushed := 1
 //@   assert-at call close #1 : ghost_flushed == 1 && seq.doneReason == reason
+// (C14/C07 audit) C07 "a slot in use is never given to a second request": when the semaphore lets the next
+// request in, the finished sequence is no longer in s.seqs (processBatch will not touch it or its slot
+// again) and only then is its slot free; the stream that is closed and the slot that is released are
+// those of the sequence at seqIndex.
+//@   assert-at call Release #1 : s.seqs[seqIndex] == nil && !seq.cache.InUse
+//@   assert-at call flushPending #1 : arg0 == s.seqs[seqIndex]
